@@ -46,7 +46,7 @@ def scenario(mods, schema_state, inst_states, output, error_format=None, explici
             paths.append(ip)
         if output:
             args += ["--output", output]
-        if error_format:
+        if error_format is not None:
             args += ["--error-format", error_format]
         if explicit:
             args += ["--validator", explicit]
@@ -89,6 +89,8 @@ def check(mods, schema_state, inst_states, output, stdin_state=None, error_forma
     if schema_state != "valid":
         if out:
             return "stdout written although the schema is unusable"
+        if error_format == "" and schema_state == "invalid" and not pretty:
+            return None      # the SchemaError is rendered with the (empty) error format: nothing to see, status non-zero
         return None if err else "no diagnostic for an unusable schema"
     n_valid = sum(1 for s in effective if s == "valid")
     if pretty:
@@ -98,6 +100,8 @@ def check(mods, schema_state, inst_states, output, stdin_state=None, error_forma
         return "plain mode wrote to stdout: %r" % out[:60]
     n_err = sum(expected_errors(mods, s) for s in effective)
     n_unreadable = sum(1 for s in effective if s in ("missing", "notjson"))
+    if error_format == "" and not pretty and n_unreadable == 0 and err:
+        return "an empty --error-format must render validation errors as nothing, stderr has %r" % err[:60]
     if error_format == "E\n" and not pretty:
         if err.count("E\n") != n_err:
             return "%d error lines for %d library errors" % (err.count("E\n"), n_err)
@@ -125,7 +129,7 @@ def search(job):
         if schema_state != "valid":
             lists = [(), ("valid",), ("invalid1", "valid")]
         for insts in lists:
-            for output, ef in (("plain", "E\n"), ("pretty", None), (None, None)):
+            for output, ef in (("plain", "E\n"), ("plain", ""), ("pretty", None), (None, None)):
                 stdin_states = ["valid", "invalid1", "notjson"] if not insts else [None]
                 for ss in stdin_states:
                     tried += 1
